@@ -199,6 +199,10 @@ def estimate_mixture_weight(
             eps=1e-10,
             eps_style='where',
         )
+        if weight.shape[-2] != affiliation.shape[-2]:
+            # The class axis is one of the tied axes: the normalisation
+            # above acts on a singleton, the weights are uniform (1/K).
+            weight = weight / affiliation.shape[-2]
 
     return weight
 
